@@ -5,6 +5,7 @@ cd /verif; mkdir -p out/soak
 for sd in $(seq $A $B); do
   for id in "$@"; do
     s=$(date +%s)
+    rm -f out/replay/$id-$TIER-*.json   # replay files are numbered per run: none of an earlier run may be kept as this run's
     VERIF_SEED=$sd ./vcheck run $id --tier $TIER > out/soak/$id-$TIER-$sd.log 2>&1; rc=$?
     echo "$(date +%H:%M:%S) seed=$sd $id rc=$rc $(( $(date +%s) - s ))s $(grep -c VIOLATION out/soak/$id-$TIER-$sd.log) viol"
     if [ $rc = 0 ]; then rm -f out/soak/$id-$TIER-$sd.log; else mkdir -p out/soak/replay-$id-$sd; cp out/replay/$id-$TIER-*.json out/soak/replay-$id-$sd/ 2>/dev/null; fi
